@@ -2,3 +2,6 @@
 pub mod infra;
 pub mod props;
 pub mod svc;
+
+#[global_allocator]
+static GLOBAL: infra::alloc::Counting = infra::alloc::Counting;
